@@ -31,7 +31,20 @@ func init() {
 }
 
 func runC17(c *Ctx) {
-	// --- materialise + typecheck -------------------------------------------------------------
+	c17Materialise(c)
+	if c.W.Prog == nil {
+		return
+	}
+
+	c17Registry(c)
+	c17AliasUnique(c)
+	c17ResolverFileKey(c)
+	c17Keywords(c)
+}
+
+// c17Materialise: the generator runs and its output type-checks for every registered configuration (shared with C18 and C19:
+// a generator that fails over its own previous output, or output that no longer compiles, breaks them too).
+func c17Materialise(c *Ctx) {
 	c.R.Rule("materialise+typecheck", "each registered generator configuration generates (exit 0, no panic) from the current templates and every emitted package has zero go/types errors", len(c.Gen))
 	for _, g := range c.Gen {
 		if g.Mat.Err != "" {
@@ -75,15 +88,9 @@ func runC17(c *Ctx) {
 	if len(other) > 0 {
 		c.R.Bad("module/typecheck", "-", sprintf("%d type errors outside the executor packages, first: %s", len(other), other[0]))
 	}
-	if c.W.Prog == nil {
-		return
-	}
+}
 
-	c17Registry(c)
-	c17AliasUnique(c)
-	c17ResolverFileKey(c)
-
-	// --- keywords ----------------------------------------------------------------------------
+func c17Keywords(c *Ctx) {
 	c.R.Rule("keywords", "the literal table ranged over by templates.sanitizeKeywords contains every Go keyword (go/token)", 25)
 	fn := c.fn(modPath("codegen/templates"), "sanitizeKeywords")
 	if fn == nil {
